@@ -115,8 +115,8 @@ def extract_inputs(trace, entry):
         if st.get("stepType") != "assignment":
             continue
         sl = st.get("sourceLocation") or {}
-        if sl.get("function") != entry:
-            continue
+        if sl.get("function") != entry or st.get("assignmentType") == "actual-parameter":
+            continue            # (parameters of callees are assigned at the call site and may share a name with an input)
         lhs = st.get("lhs", "")
         if "$" in lhs or lhs.startswith("return_value") or lhs.startswith("goto_symex"):
             continue
